@@ -247,11 +247,30 @@ def compile_main(model_bytes, cfg, want_sideband=False, name="net"):
         args = [src, "--output-dir", outdir] + config_args(cfg)
         cwd = os.getcwd()
         os.chdir(d)
+        # the compiler's own console output (fd level) is kept: its placement messages are part of what the user is told
+        import sys
+
+        logf = tempfile.TemporaryFile()
+        sys.stdout.flush()
+        sys.stderr.flush()
+        old1, old2 = os.dup(1), os.dup(2)
+        os.dup2(logf.fileno(), 1)
+        os.dup2(logf.fileno(), 2)
         try:
             status = vela.main(args)
         finally:
+            sys.stdout.flush()
+            sys.stderr.flush()
+            os.dup2(old1, 1)
+            os.dup2(old2, 2)
+            os.close(old1)
+            os.close(old2)
             os.chdir(cwd)
-        rec = dict(status=status, out=None, csv=None)
+            logf.seek(0)
+            log = logf.read().decode("utf-8", "replace")
+            logf.close()
+            sys.stdout.write(log)
+        rec = dict(status=status, out=None, csv=None, log=log)
         outp = os.path.join(outdir, name + "_vela.tflite")
         if os.path.exists(outp):
             rec["out"] = open(outp, "rb").read()
